@@ -87,6 +87,11 @@ func c13NameCase(out *zzverif.Out, s string) {
 	} else {
 		out.Count("display_roundtrip_exact")
 	}
+	// Name.EqualFold against spellings of the same and of other names
+	for _, other := range []string{str, strings.ToUpper(str), strings.ToLower(str), strings.Replace(str, "s", "\u017f", 1),
+		strings.Replace(strings.ToLower(str), "k", "\u212a", 1), str + "x", strings.Replace(str, "/", "/x", 1), full.Model + ":" + full.Tag} {
+		c13NFoldCase(out, s, other)
+	}
 	// Filepath and ParseNameFromFilepath are inverse on accepted names
 	if back := ParseNameFromFilepath(fp); back != full {
 		out.L2("filepath-inverse", op, "ParseNameFromFilepath(Filepath()) = "+c13Fields(back))
@@ -95,6 +100,33 @@ func c13NameCase(out *zzverif.Out, s string) {
 	up := Name{strings.ToUpper(full.Host), strings.ToUpper(full.Namespace), strings.ToUpper(full.Model), strings.ToUpper(full.Tag)}
 	if up != full && up.IsValid() && full.EqualFold(up) && up.Filepath() != fp {
 		out.Count("legacy_case_twin_distinct_path")
+	}
+}
+
+// c13NFoldCase ties model.Name.EqualFold (the comparison getExistingName uses on the legacy store) to the model: a is
+// an accepted name (ASCII parts), b any string read by ParseNameBare.
+func c13NFoldCase(out *zzverif.Out, a, b string) {
+	na := ParseName(a)
+	if !na.IsValid() {
+		return
+	}
+	nb := ParseNameBare(b)
+	eq := na.EqualFold(nb)
+	op := "nfold " + zzverif.Hex([]byte(a)) + " " + zzverif.Hex([]byte(b))
+	out.Case(op, zzverif.C13Bool(eq))
+	out.Count("cases")
+	if eq {
+		out.Count("nfold_equal")
+	} else {
+		out.Count("nfold_different")
+	}
+	if nb.EqualFold(na) != eq {
+		out.L2("equalfold-asymmetric", op, "a.EqualFold(b) != b.EqualFold(a)")
+	}
+	// names the legacy lookup joins are valid together and differ at most in letter case of ASCII letters or by a
+	// simple-fold partner; when both are valid they have the same lower-case form
+	if eq && nb.IsValid() && strings.ToLower(na.String()) != strings.ToLower(nb.String()) {
+		out.L2("equalfold-vs-lowercase", op, "EqualFold valid names with different lower-case forms")
 	}
 }
 
@@ -222,6 +254,8 @@ func c13Replay(out *zzverif.Out, line string) {
 		c13NameCase(out, string(zzverif.Unhex(f[1])))
 	case len(f) == 2 && f[0] == "mpath":
 		c13PathCase(out, string(zzverif.Unhex(f[1])))
+	case len(f) == 3 && f[0] == "nfold":
+		c13NFoldCase(out, string(zzverif.Unhex(f[1])), string(zzverif.Unhex(f[2])))
 	case len(f) == 4 && f[0] == "vpart":
 		var k int
 		fmt.Sscan(f[2], &k)
